@@ -39,7 +39,7 @@ def rounded_hourly(pv):
 
 def state(ns, objs, cls):
     """abstract state of a system given all its objects keyed by NAME"""
-    st = {"objects": {}, "links": {}, "labels": {}, "sources": {}, "inputs": {}, "results": {}}
+    st = {"objects": {}, "links": {}, "labels": {}, "sources": {}, "inputs": {}, "results": {}, "hourly": {}}
     topo = efx.topology(ns, objs)
     for n in sorted(objs):
         o = objs[n]
@@ -61,7 +61,14 @@ def state(ns, objs, cls):
                 st["labels"][key] = v.label or ""
                 src = getattr(v, "source", None)
                 st["sources"][key] = [src.name, src.link or ""] if src is not None else []
-                st["inputs"][key] = cls.of(key, rounded_hourly(efx.project_value(ns, v)), atol=1e-9)
+                pv = efx.project_value(ns, v)
+                st["inputs"][key] = cls.of(key, rounded_hourly(pv), atol=1e-9)
+                if pv[0] == "H":
+                    # hourly inputs in 1e-4 units, for the rounding rule of EFJson (values finer than that are left to the
+                    # value classes above)
+                    raw = [pv[3][h] * 1e4 for h in sorted(pv[3])]
+                    if all(abs(x - round(x)) < 1e-6 and abs(x) < 2 ** 30 for x in raw):
+                        st["hourly"][key] = [int(round(x)) for x in raw]
     return st
 
 
@@ -196,6 +203,12 @@ def run(tier, out):
     wd = work_dir("c13")
     try:
         tlc.stage_specs(wd)
+        resm = tlc.run_tlc(wd, "MC_Json", "SPECIFICATION Spec\nINVARIANT Rounded\nINVARIANT Idempotent\nINVARIANT Exact\n",
+                           workers=8, timeout=900)
+        tlc.require_clean(resm, "MC_Json")
+        out.add_tlc(resm, "MC_Json: save / load laws of EFJson over every small state", exhaustive=resm.completed)
+        if resm.error:
+            out.violation("model:" + resm.error, {"tlc_output_tail": resm.out[-3000:]})
         ns = efx.load()
         base = seed_from_env() * 100000
         n = 24 if tier == "quick" else 400
@@ -284,7 +297,7 @@ def run(tier, out):
                 ev["loaded"] = state(ns, by_name(flat2), cls)
             except Exception as ex:   # noqa
                 ev["load_error"] = f"{type(ex).__name__}: {str(ex)[:150]}"
-                ev.setdefault("orig", {"objects": {}, "links": {}, "labels": {}, "sources": {}, "inputs": {}, "results": {}})
+                ev.setdefault("orig", {"objects": {}, "links": {}, "labels": {}, "sources": {}, "inputs": {}, "results": {}, "hourly": {}})
                 ev["loaded"] = ev["orig"]
             events.append(ev)
             out.nontrivial.add(("file", fn))
